@@ -39,6 +39,9 @@ def gen(rng, tier):
         cases.append(line)
     for _ in range(250 if tier == "quick" else 8000):
         cases.append(hashgen.corrupt_case(rng, KIND, tier))
+    if KIND == "gnu":
+        for _ in range(60 if tier == "quick" else 1500):
+            cases.append(hashgen.forged_span_case(rng))
     return cases
 
 
